@@ -6,13 +6,14 @@ import MsqModel.Driver.CmdCache
 import MsqModel.Driver.CmdImm
 import MsqModel.Driver.CmdConv
 import MsqModel.Driver.CmdSpec
+import MsqModel.Driver.CmdEntry2
 /-!
 Driver commands contributed by other modules: add `import MsqModel.Driver.CmdXxx` here and its handler to `handlers`.
 A handler returns `none` for a request that is not its own.
 -/
 namespace Drv
 
-def handlers : List (List String → Option String) := [cmdAnalyze, cmdCache, cmdScan, cmdCount, cmdImm, cmdConv, cmdSpec]
+def handlers : List (List String → Option String) := [cmdAnalyze, cmdCache, cmdScan, cmdCount, cmdImm, cmdConv, cmdSpec, cmdEntry2]
 
 def dispatchExt (parts : List String) : String :=
   match handlers.findSome? (fun h => h parts) with
